@@ -243,7 +243,7 @@ func FlatHeader(name string, loci, bases int) string {
 var hostile = []string{
 	"and/or", "a=b", "/note=abc", "/pseudo", "=", "/", "//x", "x//y", "1..5", "(bases", "join(1..2,3..4)", "complement(3..4)", "<1..>9",
 	"TITLE", "AUTHORS", "JOURNAL", "PUBMED", "REMARK", "ORIGIN", "REFERENCE", "FEATURES", "ORGANISM", "SOURCE", "LOCUS", "DEFINITION", "COMMENT",
-	"DNA", "RNA", "PRI", "circular", "linear", "10", "25", "bp", "aa", "http://www.ncbi.nlm.nih.gov/x?y=1&z=2", "5'-3'", "it's", "[a;b]", "{x}", "100%", "a\\b", "~tilde~", "'quoted'",
+	"DNA", "RNA", "PRI", "circular", "linear", "10", "25", "bp", "aa", "http://www.ncbi.nlm.nih.gov/x?y=1&z=2", "5'-3'", "it's", "[a;b]", "{x}", "100%", "a\\b", "~tilde~", "'quoted'", "\\u003c", "\\u0026", "\\n", "\\\\", "&lt;", "&amp;", "%3C", "$1", "%s",
 }
 
 // Word draws one word: printable ASCII without '"' and without spaces, at most 30 characters.
